@@ -58,7 +58,7 @@ func c04FeatGen(g *hx.Gen) {
 	// the witnesses of the design
 	g.Casef("bedl 3 %s", hx.Hex([]byte("chr1\t1\t10\nchr2\t5\t20\n")))
 	g.Casef("gffl %s", hx.Hex([]byte("##DNA x\n##acgt\n##end-DNA\n")))
-	n := g.Scale(3000, 300000)
+	n := g.Scale(3000, 60000)
 	for k := 0; k < n && !g.Done(); k++ {
 		if g.Chance(0.4) {
 			w := fioWidths[g.Intn(5)]
